@@ -694,3 +694,30 @@ Fixpoint consec (os : list op) (id ip acc : N) : N :=
          end)
   end.
 Definition with_fails (t : table) (f : list ((N * N) * N)) : table := mkTable (self t) (bks t) (gl t) f (initd t).
+
+(* (2, converse) the 5-failures rule must fire: after a failed track request with fails+1 >= 5 on a node that is an
+   entry of a bucket with >= 4 entries, that entry is gone.  The id may be present again only as a NEW entry
+   re-added from the found nodes of the same request (not validated, fast list, record among the found nodes). *)
+Definition fresh_b (found : list node) (e' : entry) : bool :=
+  existsb (node_eqb (nd e')) found && negb (live e') && rl_is e' Fast.
+Definition must_leave_b (t : table) (o : op) : option (N * list node) :=
+  match o with
+  | Track n false found _ =>
+      match nbucket t (nid n) with
+      | Some b =>
+          if (5 <=? fails_read (fails t) (nid n) (nip n) + 1) && (4 <=? nlen (ents b)) &&
+             existsb (fun e => eid e =? nid n) (ents b)
+          then Some (nid n, found) else None
+      | None => None
+      end
+  | _ => None
+  end.
+Definition pol_kept_b (t : table) (o : op) (t' : table) : bool :=
+  match must_leave_b t o with
+  | None => true
+  | Some (id, found) =>
+      match find_entry t' id with
+      | None => true
+      | Some e' => existsb (fun x => nid x =? id) found && fresh_b found e'
+      end
+  end.
